@@ -158,19 +158,20 @@ theorem fault_type_sub_div_second {σ : Store} {a : Num} {x : Value} {rest : Lis
   · refine .intro (by decide) (by simp [Builtin.arity, arityOk]) (by decide) ?_ ?_ <;>
     · cases x <;> first | exact absurd trivial hx | (simp only [applyPure, subDiv, expectNumber]; rfl)
 
-/-- `= < <= > >=`: the first argument that is not a number, if every adjacent pair of numbers before
-it is in order (a pair out of order ends the chain with `#f` before the argument is looked at) -/
+/-- `= < <= > >=`: the first argument that is not a number, whether or not the adjacent pairs of
+numbers before it are in order (every argument is type-checked, also after a pair out of order has
+decided the result) -/
 theorem fault_type_compare {σ : Store} {ns : List Num} {x : Value} {post : List Value} (hx : ¬ IsNum x) :
-    (Num.cmpChain Num.eq ns = true → BuiltinFault σ .numEq (ns.map .num ++ x :: post) .type) ∧
-    (Num.cmpChain Num.lt ns = true → BuiltinFault σ .lt (ns.map .num ++ x :: post) .type) ∧
-    (Num.cmpChain Num.le ns = true → BuiltinFault σ .le (ns.map .num ++ x :: post) .type) ∧
-    (Num.cmpChain Num.gt ns = true → BuiltinFault σ .gt (ns.map .num ++ x :: post) .type) ∧
-    (Num.cmpChain Num.ge ns = true → BuiltinFault σ .ge (ns.map .num ++ x :: post) .type) := by
-  refine ⟨fun hc => ?_, fun hc => ?_, fun hc => ?_, fun hc => ?_, fun hc => ?_⟩ <;>
+    BuiltinFault σ .numEq (ns.map .num ++ x :: post) .type ∧
+    BuiltinFault σ .lt (ns.map .num ++ x :: post) .type ∧
+    BuiltinFault σ .le (ns.map .num ++ x :: post) .type ∧
+    BuiltinFault σ .gt (ns.map .num ++ x :: post) .type ∧
+    BuiltinFault σ .ge (ns.map .num ++ x :: post) .type := by
+  refine ⟨?_, ?_, ?_, ?_, ?_⟩ <;>
   · refine .intro (by decide) (by simp [Builtin.arity, arityOk]) (by decide) ?_ ?_ <;>
-    · simp only [applyPure, cmpNum_type hc hx]; rfl
+    · simp only [applyPure, cmpNum_type hx]; rfl
 
-example : Num.cmpChain Num.lt [.int 1, .int 2] = true ∧ ¬ IsNum (.sym "a") := ⟨by decide, fun h => h⟩
+example : Num.cmpChain Num.lt [.int 2, .int 1] = false ∧ ¬ IsNum (.sym "a") := ⟨by decide, fun h => h⟩
 
 /-- `vector-ref`: a first argument that is not a vector, or an index that is not an exact integer -/
 theorem fault_type_vector_ref {σ : Store} {v k : Value}
